@@ -51,7 +51,7 @@ def _elementwise(name):
     def g(x, *args, **kw):
         if isinstance(x, Sym):
             r = f(x)
-            return bool(r) if name in core._CMP else r
+            return _np.bool_(bool(r)) if name in core._CMP else r
         if isinstance(x, _np.ndarray) and x.dtype == object:
             r = _np.frompyfunc(f, 1, 1)(x)
             if name in core._CMP:
@@ -86,6 +86,9 @@ def _binary(name):
         return real(a, b, *args, **kw)
     g.__name__ = name
     return g
+
+
+ARANGE_MAX = 6
 
 
 class NP:
@@ -167,6 +170,39 @@ class NP:
         if any(_is_obj(_np.asarray(o)) for o in operands):
             return _einsum_obj(subscripts, *[_np.asarray(o) for o in operands])
         return _np.einsum(subscripts, *operands, **kw)
+
+    def arange(self, *args, **kw):
+        """np.arange with symbolic ends: the length ceil((stop-start)/step) is decided by
+        forking on the integer it equals (bounded by ARANGE_MAX).  Rounding-adversarial: when
+        the quotient is exactly an integer m over the reals, the float computation may also
+        yield m+1 points (DESIGN 1.4) -- that branch is explored too and tagged."""
+        if not any(isinstance(a, Sym) for a in args):
+            return _np.arange(*args, **kw)
+        if len(args) == 1:
+            start, stop, step = 0, args[0], 1
+        elif len(args) == 2:
+            start, stop, step = args[0], args[1], 1
+        else:
+            start, stop, step = args[:3]
+        q = (stop - start) / step
+        e = core.cur()
+        n = None
+        for m in range(0, ARANGE_MAX + 1):
+            if q <= m:
+                n = m
+                if m > 0 and q == m:
+                    import z3
+                    e.nfresh += 1
+                    if e.branch(z3.Bool(f"arange_rounds_up!{e.nfresh}")):
+                        n = m + 1
+                        e.log.append("arange: rounding-adversarial extra point")
+                break
+        if n is None:
+            raise core.BoundHit("arange longer than ARANGE_MAX")
+        out = _np.empty(n, dtype=object)
+        for i in range(n):
+            out[i] = start + i * step
+        return out
 
     def linspace(self, start, stop, num=50, endpoint=True, **kw):
         if isinstance(start, Sym) or isinstance(stop, Sym):
